@@ -107,11 +107,17 @@ func ReplayHeap(tw *TraceWriter, id int, ops []HeapOp) {
 		default:
 			fatal("bad heap op " + op.Op)
 		}
+		// long histories: only some statements are observed after each operation (the one operated on, the first ones,
+		// the latest ones, a few in the middle); the others are marked -2
 		flats := [][]int{}
-		for _, c := range cells {
+		for ci, c := range cells {
+			if len(ops) > 60 && !(ci < 3 || ci >= len(cells)-3 || ci == op.C-1 || ci == op.C || ci%97 == i%97) {
+				flats = append(flats, []int{-2})
+				continue
+			}
 			flats = append(flats, flatOf(c))
 		}
-		tw.Emit(Rec{"op": op.Op, "c": op.C, "k": op.K, "flats": flats})
+		tw.Emit(Rec{"op": op.Op, "c": op.C, "k": op.K, "flats": flats, "light": len(ops) > 60})
 		if i == len(ops)-1 && len(ops) >= 4 {
 			tw.Distinct("histories_with_4plus_ops", fmt.Sprint(ops))
 		}
@@ -132,6 +138,37 @@ func cmdHeap(args []string) {
 			n, _ := strconv.Atoi(args[i])
 			r := newRand(4242)
 			for j := 0; j < n; j++ {
+				if j == 7 || j == 32 {
+					// LONG histories: a chain of several hundred clones, each extended (x = x.Clone().Op("+").Lit(i)), and sibling
+					// clones of one original that each get dozens of items, their appends interleaved
+					ops := []HeapOp{{Op: "New", K: 1 + r.Intn(4)}}
+					ncells := 1
+					if j == 7 {
+						for d := 0; d < 262+r.Intn(20); d++ {
+							ops = append(ops, HeapOp{Op: "Clone", C: ncells})
+							ncells++
+							ops = append(ops, HeapOp{Op: "App", C: ncells, K: 1 + r.Intn(5)})
+						}
+					} else {
+						sib := 3 + r.Intn(4)
+						for c := 0; c < sib; c++ {
+							ops = append(ops, HeapOp{Op: "Clone", C: 1})
+							ncells++
+						}
+						for a := 0; a < 40+r.Intn(30); a++ {
+							for c := 0; c < sib; c++ {
+								ops = append(ops, HeapOp{Op: "App", C: 2 + c, K: 1 + r.Intn(5)})
+							}
+							if a == 35 {
+								ops = append(ops, HeapOp{Op: "Clone", C: 1}, HeapOp{Op: "App", C: 1, K: 1})
+								ncells++
+							}
+						}
+					}
+					id++
+					ReplayHeap(tw, id, ops)
+					continue
+				}
 				ops := []HeapOp{{Op: "New", K: 1 + r.Intn(4)}}
 				ncells := 1
 				steps := 4 + r.Intn(10)
